@@ -144,7 +144,7 @@ func (state *RuntimeState) getAuthInfoFromJWT(serializedToken,
 	return rvalue, nil
 }
 
-func (state *RuntimeState) updateAuthJWTWithNewAuthLevel(intoken string, newAuthLevel int) (string, error) {
+func (state *RuntimeState) updateAuthJWTWithNewAuthLevel(intoken string, username string, newAuthLevel int) (string, error) {
 	signerOptions := (&jose.SignerOptions{}).WithType("JWT")
 	sigAlgo, err := publicToPreferedJoseSigAlgo(state.Signer.Public())
 	if err != nil {
@@ -173,6 +173,10 @@ func (state *RuntimeState) updateAuthJWTWithNewAuthLevel(intoken string, newAuth
 		len(parsedJWT.Audience) < 1 || parsedJWT.Audience[0] != issuer ||
 		parsedJWT.NotBefore > time.Now().Unix() {
 		err = errors.New("invalid JWT values")
+		return "", err
+	}
+	if parsedJWT.Subject != username {
+		err = errors.New("JWT does not belong to the authenticated user")
 		return "", err
 	}
 	parsedJWT.AuthType = newAuthLevel
